@@ -487,5 +487,8 @@ func C17(tier string) int {
 			run.Outcome("violation:" + f.Sig)
 		}
 	}
+	// histories of client calls (explicit-state search, checks/clientbfs.go)
+	run.Rule += clientSearchRule
+	clientSearch(run, "C17", 0)
 	return run.Finish()
 }
